@@ -18,7 +18,7 @@ POOLS = {
     'having': (WORD, ['having', 'HAVING'], 'Token.Keyword'),
     'orderby': (WORD, ['order by', 'ORDER BY'], 'Token.Keyword'),
     'limit': (WORD, ['limit', 'LIMIT'], 'Token.Keyword'),
-    'setop': (WORD, ['union', 'union all', 'except', 'UNION', 'UNION ALL'], 'Token.Keyword'),
+    'setop': (WORD, ['union', 'union all', 'except', 'UNION', 'UNION ALL', 'except all', 'EXCEPT'], None),
     'jointype': (WORD, ['join', 'left join', 'inner join', 'left outer join', 'cross join', 'natural join',
                         'JOIN', 'LEFT OUTER JOIN', 'full outer join'], 'Token.Keyword'),
     'on': (WORD, ['on', 'ON'], 'Token.Keyword'),
@@ -56,7 +56,7 @@ POOLS = {
     'name': (WORD, ['foo', 'bar', 't1', 'x', 'col_a', 'é1', '_v', 'a$b', 'Tbl', 'zz9'], 'Token.Name'),
     'dqname': (WORD, ['"q n"', '"Sel"', '"a.b"', '"from"', '"x;y"', '"é"', '"two \r\nlines\\q"'], 'Token.Literal.String.Symbol'),
     'btname': (WORD, ['`b`', '`b c`', '`select`', '`x.y`'], 'Token.Name'),
-    'alias': (WORD, ['a1', 'al', 'r', 'tot', '"Al 1"', '`ba`', 'x2'], None),
+    'alias': (WORD, ['a1', 'al', 'r', 'tot', '"Al 1"', '`ba`', 'x2', '"\'net\'"', '`"bq"`'], None),
     'fname': (WORD, ['f', 'my_func', 'calc2', 'foo_fn'], 'Token.Name'),
     'num': (WORD, ['1', '42', '3.5', '0', '100'], 'Token.Literal.Number'),
     'str': (WORD, ["'s'", "'it''s'", "'a;b'", "''", "'x y'", "'2020-01-01'", "'C:\\temp\\logs \r\nD:\\x'", "'l1  \n l2'"],
@@ -85,8 +85,8 @@ POOLS = {
 GAPS = {
     'blank': [' '],
     'ws': [' ', '  ', '\t', '\n', '\r\n', ' \n  ', '\n\n'],
-    'cmt': [' ', '\n', ' /* c */ ', '/* c */', ' -- c\n', ' /* a\n b */ ', '\n-- x; y\n', ' /*+ h */ ', ' ', ' '],
-    'cmtx': [' ', ' /* a \r\n b */ ', ' /* t  \n*/ ', '\n', ' -- c\r\n'],
+    'cmt': [' ', '\n', ' /* c */ ', '/* c */', ' -- c\n', ' /* a\n b */ ', '\n-- x; y\n', ' /*+ h */ ', ' ', ' ', ' # c\n', ' /* x **/ '],
+    'cmtx': [' ', ' /* a \r\n b */ ', ' /* t  \n*/ ', '\n', ' -- c\r\n', " -- don't\n", ' /* 5" */ ', '/***/', '\n# h; c\n'],
 }
 
 _checked = None
@@ -156,6 +156,18 @@ class Prog:
         return sorted(out)
 
 
+NAMELIKE = ('name', 'dqname', 'btname', 'alias', 'fname', 'typename', 'str', 'num', 'ph')
+
+
+def _wordish(c):
+    return c.isalnum() or c in '_$@#'
+
+
+def fuses(wa, wb):
+    """would the spellings wa wb, written without a gap, run into each other? (word into word; quotes delimit themselves)"""
+    return _wordish(wa[-1:]) and _wordish(wb[:1])
+
+
 def need_gap(a, b):
     """is a non-empty gap required between labels a and b (else tokens would fuse)?"""
     ca, cb = POOLS[a][0], POOLS[b][0]
@@ -184,9 +196,13 @@ class Spelled:
         return None if c is None else self.text[c[0]:c[1]]
 
 
-def spell(prog, rng, gaps='blank', canonical=False, tight=False, choices=None, canonical_kw=False):
+TAILS = ['', '', '', ' ', '\n', ' -- t', '\n-- end', '\n/* e */', '\n-- end\n', ' /* e */ ']
+
+
+def spell(prog, rng, gaps='blank', canonical=False, tight=False, choices=None, canonical_kw=False, tail=False):
     """gaps: 'blank' | 'ws' | 'cmt' (which fillers may appear between tokens);
-    tight: leave optional gaps empty; canonical: first spelling of every pool."""
+    tight: leave optional gaps empty; canonical: first spelling of every pool;
+    tail: the position behind the last token may hold a comment / line break too."""
     ok, _ = checked()
     parts = []
     tokspans = []
@@ -200,6 +216,9 @@ def spell(prog, rng, gaps='blank', canonical=False, tight=False, choices=None, c
         g = ''
         if prev is not None and not no_gap(prev, lab):
             must = need_gap(prev, lab)
+            if (must and tight and POOLS[prev][0] == WORD and POOLS[lab][0] == WORD and not fuses(words[-1], w)
+                    and not (prev in NAMELIKE and lab in NAMELIKE)):     # an alias without AS is set off by whitespace only
+                must = False     # `AS"x"`, `'s'from`: a quote delimits itself (judged afterwards by lexes_as_intended)
             if must or not tight:
                 if gaps == 'blank' or (canonical and gaps == 'blank'):
                     g = ' '
@@ -222,6 +241,8 @@ def spell(prog, rng, gaps='blank', canonical=False, tight=False, choices=None, c
         words.append(w)
         pos += len(w)
         prev = lab
+    if tail and gaps in ('cmt', 'cmtx'):
+        parts.append(rng.choice(TAILS))
     return Spelled(prog, ''.join(parts), tokspans, words)
 
 
@@ -249,4 +270,10 @@ def lexes_as_intended(sp):
     """the spelled program's significant tokens are exactly the intended words"""
     from sqlparse import lexer, tokens as T
     toks = [v for tt, v in lexer.tokenize(sp.text) if tt not in T.Whitespace and tt not in T.Comment]
-    return toks == sp.words
+
+    def flat(vs):      # `except all` is two tokens, `union all` one: compare word by word
+        out = []
+        for v in vs:
+            out.extend([v] if v[:1] in '"\'`' else v.split())
+        return out
+    return flat(toks) == flat(sp.words)
